@@ -48,7 +48,7 @@ def run_case(case):
 
 def strategy(tier):
     big = tier == "thorough"
-    return kgen.programs(WEIGHTS, max_bodies=6 if big else 5, max_instrs=8, max_start=10 if big else 5)
+    return kgen.programs(WEIGHTS, max_bodies=6 if big else 5, max_instrs=8, max_start=10 if big else 5, min_instrs=2, min_start=2)
 
 
 PROP = Property(
